@@ -178,3 +178,17 @@ Example bottom_up_fill_nonvacuous :
   option_map (map placement_flat) (tile_image_placements (mkTiling 13 55 1024 4 2 755 584) true)
   = Some [[2; 2; 2; 0; 55; 0; 13; 183; -1; 55; 243; 13]].
 Proof. vm_compute. reflexivity. Qed.
+
+(* scope note: compute_for_subimage re-derives the square from self._width /
+   self._height (study.py:125), so calling it on a tiling that is itself a
+   sub-tiling forgets the parent's square.  The property (and [constructed])
+   quantify over sub-images of a tiling built by the constructor only. *)
+Example nested_subimage_outside_scope :
+  match study_tiling 2048 2048 with
+  | Some t => match compute_for_subimage t 0 0 100 100 with
+              | Some s => option_map t_p2n (compute_for_subimage s 10 10 50 50)
+              | None => None
+              end
+  | None => None
+  end = Some 256.
+Proof. vm_compute. reflexivity. Qed.
